@@ -147,6 +147,10 @@ pub struct WitnessSpec {
     /// the identity element)
     #[serde(default)]
     pub zero_blind: Vec<usize>,
+    /// openings that repeat the opening before them exactly (same value, promise and blindings, hence
+    /// an equal commitment)
+    #[serde(default)]
+    pub same_as_prev: Vec<usize>,
 }
 
 pub fn scalar_from_seed(tag: &str, seed: u64, i: u64) -> Scalar {
@@ -155,6 +159,10 @@ pub fn scalar_from_seed(tag: &str, seed: u64, i: u64) -> Scalar {
 
 impl WitnessSpec {
     pub fn blinding(&self, j: usize, k: usize) -> Scalar {
+        let mut j = j;
+        while j > 0 && self.same_as_prev.contains(&j) {
+            j -= 1;
+        }
         if self.zero_blind.contains(&j) {
             return Scalar::ZERO;
         }
@@ -176,12 +184,15 @@ impl WitnessSpec {
         let mut promises = Vec::with_capacity(cfg.m);
         for _ in 0..cfg.m {
             // value - promise must be < 2^bits and promise <= value; value itself must be < 2^bits
-            let v = match rng.below(6) {
+            let v = match rng.below(8) {
                 0 => 0,
                 1 => max,
                 2 => max - rng.below((max / 2).max(1)).min(max),
                 3 => rng.range(0, max),
                 4 => rng.range(0, max.min(3)),
+                // a single bit set, or all bits below one position set
+                5 => 1u64 << rng.below(cfg.bits as u64),
+                6 => (1u64 << rng.below(cfg.bits as u64)) - 1,
                 _ => rng.range(0, max),
             };
             let p = match rng.below(5) {
@@ -208,12 +219,23 @@ impl WitnessSpec {
                 }
             }
         }
+        // boundary: an opening that repeats its predecessor (two equal commitments in one aggregate)
+        let mut same_as_prev = Vec::new();
+        if cfg.m >= 2 && rng.chance(1, 10) {
+            let j = rng.range(1, cfg.m as u64 - 1) as usize;
+            if !zero_blind.contains(&j) && !zero_blind.contains(&(j - 1)) {
+                values[j] = values[j - 1];
+                promises[j] = promises[j - 1];
+                same_as_prev.push(j);
+            }
+        }
         WitnessSpec {
             values,
             promises,
             blind_seed: rng.next_u64(),
             seed_nonce,
             zero_blind,
+            same_as_prev,
         }
     }
 }
